@@ -32,3 +32,62 @@ def register(db):
                     raises=[("RuntimeError", "hasObT(tagifyT(self))")], ensures=["result == renderT(self)"], fresh=True, props=P))
     db.method_table[("TagList", "render")] = CORE + "TagList.render"
     db.method_table[("Tag", "render")] = CORE + "Tag.render"
+    register_copy(db)
+
+
+def register_copy(db):
+    from ..contracts_api import Contract
+    c = Contract(name=CORE + "Tag.__copy__", params=[("self", "Any")], returns="Any", props=["C08"],
+                 note="record view of a Tag: the copy is a new object whose every field is copy(field) — equal value, and a newly allocated "
+                      "attribute map / child list (so mutating either tag through the public API never affects the other)")
+    c.harness, c.pure = copy_harness, True
+    db.add(c)
+
+
+def copy_harness(I, c):
+    import z3
+    from ..symexec import PyRec, SAdt, SStr, SBool, SNone, Obligation
+    from ..extract import strip_docstring
+    fields = {"name": SStr(I.fresh("Str", "name")), "add_ws": SBool(I.fresh("Bool", "add_ws")),
+              "attrs": SAdt("AttrList", I.fresh("AttrList", "attrs"), fresh=False, pyclass="TagAttrDict"),
+              "children": SAdt("NodeList", I.fresh("NodeList", "children"), fresh=False, pyclass="TagList"), "prev_displayhook": SNone()}
+    fn = I.src.find(c.name)
+    saved = (I.module, I.fn_qual)
+    I.module, I.fn_qual = I.src.split(c.name)[0], c.name
+
+    def run():
+        I.st.env = {"self": PyRec("Tag", dict(fields), fresh=False)}
+        I.loop_ordinal = I.comp_ordinal = 0
+        I.exec_block(strip_docstring(fn.body))
+        return SNone()
+    try:
+        paths = I.explore(run)
+    finally:
+        I.module, I.fn_qual = saved
+    obs = list(I.obligations)
+    I.obligations = []
+    for pi, p in enumerate(paths):
+        tag = f"R:_core.Tag.__copy__:path{pi}"
+        where = c.name
+        if p.outcome != "return" or not isinstance(p.value, PyRec):
+            obs.append(Obligation(f"{tag}.result", p.pc, z3.BoolVal(False), where, "R", "returns a Tag object"))
+            continue
+        r = p.value
+        obs.append(Obligation(f"F:_core.Tag.__copy__:path{pi}.fresh-object", p.pc, z3.BoolVal(bool(r.fresh) and r is not p.env.get("self")), where, "F", "the result is a newly allocated object"))
+        obs.append(Obligation(f"{tag}.class", p.pc, z3.BoolVal(r.cls == "Tag"), where, "R", "same class as the original"))
+        obs.append(Obligation(f"{tag}.fields", p.pc, z3.BoolVal(set(r.fields) == set(fields)), where, "R", f"same instance fields ({sorted(r.fields)})"))
+        for f, v0 in fields.items():
+            v1 = r.fields.get(f)
+            if v1 is None:
+                continue
+            if isinstance(v0, SNone):
+                obs.append(Obligation(f"{tag}.field[{f}]", p.pc, z3.BoolVal(isinstance(v1, SNone)), where, "R", f"{f} copied"))
+            else:
+                obs.append(Obligation(f"{tag}.field[{f}]", p.pc, v1.t == v0.t, where, "R", f"copy.{f} == self.{f} (structurally)"))
+            if isinstance(v0, SAdt):
+                obs.append(Obligation(f"F:_core.Tag.__copy__:path{pi}.fresh[{f}]", p.pc, z3.BoolVal(bool(getattr(v1, "fresh", False))), where, "F",
+                                      f"copy.{f} is a newly allocated {v0.pyclass}, not shared with the original"))
+        orig = p.env.get("self")
+        same = isinstance(orig, PyRec) and all(orig.fields.get(f) is fields[f] for f in fields)
+        obs.append(Obligation(f"F:_core.Tag.__copy__:path{pi}.original-untouched", p.pc, z3.BoolVal(bool(same)), where, "F", "no field of the original is reassigned"))
+    return obs
